@@ -252,7 +252,7 @@ Definition out_write (p : pbar) (text : str) (nl : bool) : res (pbar * list emit
   if p_quiet p then Ok (p, [])
   else if p_section p then
     do x <- (if p_ansi p then sstep_ansi (p_w p) (p_secs p) (p_f p) (SWrite 0 text nl)
-             else sstep_plain (p_secs p) (p_f p) (SWrite 0 text nl));
+             else sstep_plain (p_w p) (p_secs p) (p_f p) (SWrite 0 text nl));
     Ok (set_out p (snd (fst x)) (fst (fst x)), snd x)
   else if p_ansi p then
     do x <- Markup.format (p_f p) text None;
@@ -348,7 +348,7 @@ Definition pstep (p : pbar) (now : Z) (o : pop) : res (pbar * list emit) :=
   | OBelow text =>
     if p_section p then
       do x <- (if p_ansi p then sstep_ansi (p_w p) (p_secs p) (p_f p) (SWrite 1 text true)
-               else sstep_plain (p_secs p) (p_f p) (SWrite 1 text true));
+               else sstep_plain (p_w p) (p_secs p) (p_f p) (SWrite 1 text true));
       Ok (set_out p (snd (fst x)) (fst (fst x)), snd x)
     else Ok (p, [])
   end.
@@ -471,7 +471,7 @@ Definition run_C16 (s : sexp) : sexp :=
       let w := Z.to_nat w in
       match new_formatter (if ansi then FAnsi true else FPlain) set with
       | Ok f0 =>
-        let setup := if section then [SCreate; SCreate] ++ (match below with Some t => [SWrite 1 t true] | None => [] end) else [] in
+        let setup := if section then [SCreate 0; SCreate 0] ++ (match below with Some t => [SWrite 1 t true] | None => [] end) else [] in
         match srun ansi w [] f0 setup with
         | Ok (st0, f1, es0) =>
           let p := pb_new ansi quiet section w f1 st0 verb mx bw mnum mden xnum xden rf pchar custom msg t0 in
